@@ -99,6 +99,10 @@ def relayout(a, lay):
         return big[::2]
     if lay == "T" and a.ndim >= 2:
         return np.ascontiguousarray(a.T).T
+    if lay == "ro":
+        a = a.copy()
+        a.flags.writeable = False          # a frozen (read-only) array: still the node's own mutable-later state
+        return a
     if lay == "bcast" and a.ndim >= 1 and a.size:
         item = a.reshape(-1)[:1]
         if a.tobytes() == item.tobytes() * a.size:
